@@ -46,7 +46,10 @@ import (
 var contract = common.HexToAddress("0x00000000000000000000000000000000005511aa")
 var topic0 = common.HexToHash("0xc13c13c13c13c13c13c13c13c13c13c13c13c13c13c13c13c13c13c13c13c13c1")
 
-const waitTimeout = 15 * time.Second
+const waitTimeout = 10 * time.Second
+
+// once an execution has left the spec's prediction, later waits are short
+const divergedTimeout = 1500 * time.Millisecond
 
 // After the harness cuts a connection, go-ethereum's rpc.Client (v1.13.5) can leave the call whose write has just
 // completed (or a subscription whose confirmation is just being dispatched) waiting forever: Client.dispatch excludes
@@ -638,14 +641,21 @@ func replayOne(b vh.Behaviour) (out behOut) {
 	cut := false  // a connection was cut and the client has not been heard of since
 	hung := false // ... and stayed silent for hangTimeout
 
+	wt := func() time.Duration {
+		switch {
+		case cut:
+			return hangTimeout
+		case diverged:
+			return divergedTimeout
+		}
+		return waitTimeout
+	}
 	needReq := func(typ string) *request {
 		var r *request
 		if stash != nil {
 			r, stash = stash, nil
-		} else if cut {
-			r = w.waitReq(hangTimeout)
 		} else {
-			r = w.waitReq(waitTimeout)
+			r = w.waitReq(wt())
 		}
 		if r == nil {
 			if cut {
@@ -673,7 +683,7 @@ func replayOne(b vh.Behaviour) (out behOut) {
 	}
 	checkDelivered := func(st map[string]any) {
 		want := specEntries(st)
-		if !w.waitEntries(len(want), waitTimeout) {
+		if !w.waitEntries(len(want), wt()) {
 			div("delivered.len", len(want), len(w.snapshot()))
 			return
 		}
@@ -683,10 +693,7 @@ func replayOne(b vh.Behaviour) (out behOut) {
 		}
 	}
 	waitHist := func() (histRes, bool) {
-		d := waitTimeout
-		if cut {
-			d = hangTimeout
-		}
+		d := wt()
 		select {
 		case r := <-histCh:
 			histCh = nil
@@ -718,10 +725,7 @@ func replayOne(b vh.Behaviour) (out behOut) {
 		faults++
 		if vh.Str(st, "pc") == "fatal" {
 			expectFatal = true
-			d := waitTimeout
-			if cut {
-				d = hangTimeout
-			}
+			d := wt()
 			select {
 			case <-w.ongoing:
 				if atomic.LoadInt32(&w.fatal) == 0 {
@@ -894,6 +898,9 @@ func replayOne(b vh.Behaviour) (out behOut) {
 		step = len(b.Steps)
 		atomic.StoreInt32(&curStep, int32(step))
 		idle := hangTimeout + time.Second // no request, entry or return for this long: stalled
+		if diverged && !cut {
+			idle = 2 * divergedTimeout
+		}
 		if stash != nil {
 			w.f.reqs <- stash
 			stash = nil
@@ -1247,6 +1254,10 @@ func packlogs(seed int64, runs int, res *vh.Result) {
 // ---------------------------------------------------------------------------------------------------
 
 func merge(res *vh.Result, o behOut) {
+	if o.counters["skipped_after_violations"] > 0 {
+		res.Counters["skipped_after_violations"]++
+		return
+	}
 	res.Behaviours++
 	res.Steps += o.steps
 	if o.nontrivial {
@@ -1276,6 +1287,7 @@ func main() {
 	workers := flag.Int("workers", 12, "concurrent worlds")
 	seed := flag.Int64("seed", 1, "seed")
 	runs := flag.Int("runs", 100, "number of own executions (stress, packlogs)")
+	maxViol := flag.Int("maxviol", 40, "stop starting new executions once this many of them tripped the monitor")
 	flag.Parse()
 	res := vh.NewResult()
 
@@ -1289,6 +1301,7 @@ func main() {
 		outs := make([]behOut, len(behs))
 		var wg sync.WaitGroup
 		idx := int32(-1)
+		var tripped int32
 		for k := 0; k < *workers; k++ {
 			wg.Add(1)
 			go func() {
@@ -1298,7 +1311,14 @@ func main() {
 					if i >= len(behs) {
 						return
 					}
+					if int(atomic.LoadInt32(&tripped)) >= *maxViol {
+						outs[i] = behOut{id: behs[i].ID, counters: map[string]int{"skipped_after_violations": 1}}
+						continue
+					}
 					outs[i] = replayOne(behs[i])
+					if len(outs[i].viol) > 0 {
+						atomic.AddInt32(&tripped, 1)
+					}
 				}
 			}()
 		}
@@ -1325,6 +1345,7 @@ func main() {
 		outs := make([]behOut, *runs)
 		var wg sync.WaitGroup
 		idx := int32(-1)
+		var tripped int32
 		for k := 0; k < *workers; k++ {
 			wg.Add(1)
 			go func() {
@@ -1334,7 +1355,14 @@ func main() {
 					if i >= *runs {
 						return
 					}
+					if int(atomic.LoadInt32(&tripped)) >= *maxViol {
+						outs[i] = behOut{id: fmt.Sprintf("stress-%d-%d", *seed, i), counters: map[string]int{"skipped_after_violations": 1}}
+						continue
+					}
 					outs[i] = stressOne(*seed*1000003+int64(i), fmt.Sprintf("stress-%d-%d", *seed, i))
+					if len(outs[i].viol) > 0 {
+						atomic.AddInt32(&tripped, 1)
+					}
 				}
 			}()
 		}
